@@ -142,8 +142,11 @@ def adapt_flags(kind: str, sched: List[dict]) -> List[dict]:
     return out
 
 
-def run_wait(kinds: List[str], scheds: List[List[dict]], timeouts: List[int], polls: List[Tuple[int, int]], shared: bool = False) -> List[dict]:
-    """Run len(kinds) concurrent waits (same arrival instants, per-waiter match flags).  Returns one trace per waiter."""
+def run_wait(kinds: List[str], scheds: List[List[dict]], timeouts: List[int], polls: List[Tuple[int, int]], shared: bool = False,
+             starts: Optional[List[int]] = None) -> List[dict]:
+    """Run len(kinds) waits (same arrival instants, per-waiter match flags); waiter i starts at half-step instant starts[i] (even;
+    default 0) and its schedule, timeout, polls and completion instant are relative to its own start.  Returns one trace per waiter."""
+    starts = starts or [0] * len(kinds)
     loop = StepLoop(virtual=True)
     asyncio.set_event_loop(loop)
     try:
@@ -173,10 +176,15 @@ def run_wait(kinds: List[str], scheds: List[List[dict]], timeouts: List[int], po
                 ev = await client.waitforevent(timeout=None if to == NOT else to * HALF, polling_enabled=d != NOT,
                                                polling_delay=(d * HALF if d != NOT else 1.0), polling_interval=(iv * HALF if iv != NOT else 1.0), **kw)
                 idx = next((ix for e, ix in seen if e is ev), -1)
-                results[i] = {"outcome": "returned", "ev": idx, "doneAt": int(round(loop.time() / HALF))}
+                results[i] = {"outcome": "returned", "ev": idx, "doneAt": int(round(loop.time() / HALF)) - starts[i]}
             except Exception as e:
-                results[i] = {"outcome": "raised", "ev": 0, "doneAt": int(round(loop.time() / HALF)), "exc": str(e)}
-        tasks = [loop.create_task(waiter(i)) for i in range(len(kinds))]
+                results[i] = {"outcome": "raised", "ev": 0, "doneAt": int(round(loop.time() / HALF)) - starts[i], "exc": str(e)}
+        tasks = []
+        for i in range(len(kinds)):
+            if starts[i] == 0:
+                tasks.append(loop.create_task(waiter(i)))
+            else:
+                loop.call_at(starts[i] * HALF, lambda i=i: tasks.append(loop.create_task(waiter(i))))
         # arrivals: all arrivals of one instant are processed inside one callback (one read)
         instants: Dict[int, List[int]] = {}
         for j, a in enumerate(scheds[0]):
@@ -189,9 +197,13 @@ def run_wait(kinds: List[str], scheds: List[List[dict]], timeouts: List[int], po
                     client.process_message(msg)
             current["idx"] = 0
         for t, js in sorted(instants.items()):
-            if t <= HORIZON:
+            if t <= HORIZON + max(starts):
                 loop.call_at(t * HALF, deliver, js)
-        loop.advance_to(HORIZON * HALF)
+        loop.advance_to((HORIZON + max(starts)) * HALF)
+        # every wait is observed for HORIZON half-steps from its own start
+        for i in range(len(kinds)):
+            if results[i]["doneAt"] != NOT and results[i]["doneAt"] > HORIZON:
+                results[i] = {"outcome": "waiting", "ev": 0, "doneAt": NOT}
         out = []
         for i in range(len(kinds)):
             vec = vec_of(i)
@@ -205,11 +217,16 @@ def run_wait(kinds: List[str], scheds: List[List[dict]], timeouts: List[int], po
                     mine.append(int(round(tm / HALF)))
             res = dict(results[i])
             res.pop("exc", None)
+            mine = [t - starts[i] for t in mine if starts[i] <= t <= starts[i] + HORIZON]
+            if shared or len(set(starts)) > 1:
+                # several waits poll the same property: a poll after this wait's completion belongs to another wait
+                mine = [t for t in mine if res["doneAt"] == NOT or t <= res["doneAt"]]
             res["polls"] = sorted(set(mine))
             # registration: callbacks beyond the harness tap that belong to still-waiting waits
             res["registered"] = 1 if results[i]["outcome"] == "waiting" else 0
             res["_ncb"] = len(client.callbacks) - n_before
-            out.append({"sched": adapt_flags(kinds[i], scheds[i]), "timeout": timeouts[i], "poll": list(polls[i]), "obs": res, "kind": kinds[i]})
+            rel = [{"t": a["t"] - starts[i], "m": a["m"]} for a in adapt_flags(kinds[i], scheds[i]) if starts[i] < a["t"] <= starts[i] + HORIZON + 1]
+            out.append({"sched": rel, "timeout": timeouts[i], "poll": list(polls[i]), "obs": res, "kind": kinds[i]})
         # leftover callbacks must be exactly the waits still pending
         pending = sum(1 for r in results if r["outcome"] == "waiting")
         if len(client.callbacks) - n_before != pending:
@@ -284,6 +301,16 @@ def run(prop: str, tier: str) -> int:
             k3 = r.choice(["check-value", "initial-value", "check-state", "expect-value"])
             to3 = r.choice([NOT, 4, 8, 10])
             traces += run_wait([k3, k3], [a, a], [to, to3], [(NOT, NOT), (NOT, NOT)], shared=True)
+        if r.random() < 0.35:
+            # the same property polled by two waits with the same polling parameters but different timeouts: each keeps polling until IT completes
+            k4 = r.choice(["check-value", "initial-value", "check-state"])
+            pp = r.choice([(2, 2), (2, 4), (4, 2)])
+            traces += run_wait([k4, k4], [a, a], [r.choice([4, 6]), r.choice([NOT, 10])], [pp, pp], shared=True)
+        if r.random() < 0.35:
+            # back to back: a second wait on the same property starts after the first one completed (its poller may still be asleep)
+            k5 = r.choice(["check-value", "initial-value"])
+            late = [x for x in a if x["t"] > 4]
+            traces += run_wait([k5, k5], [late, late], [2, r.choice([NOT, 6])], [(2, 6), (2, 2)], shared=True, starts=[0, 4])
     for t in traces:
         v.evaluations += 1
         v.count_action("wait:" + t["kind"] + ":" + t["obs"]["outcome"])
